@@ -6,7 +6,7 @@
           (c T SNAP LOCS)   the controller cancelled the context of actor T
           (f SNAP LOCS)     the next Store returns an error
           (p SNAP LOCS)     the next Store panics
-   SNAP:  (TX TK AL NS)     e.txn != nil, token in use, tomb alive, len(e.streams),
+   SNAP:  (TX TK AL NS PV)  e.txn != nil, token in use, tomb alive, len(e.streams), publications so far,
                             read by the controller when every actor is parked, blocked or done
    LOCS:  (loc ...)         per actor: the hook point it is parked at, idle, done, or blk
 
@@ -217,7 +217,7 @@ Definition b01 (b : bool) : string := if b then "1" else "0".
 Definition snap_text (s : state) : string :=
   let g := st_g s in
   "(" ++ b01 (is_some (etxn g)) ++ " " ++ b01 (negb (token_free g)) ++ " " ++ b01 (alive g) ++ " "
-      ++ show_Z (Z.of_nat (nstreams g)) ++ ")".
+      ++ show_Z (Z.of_nat (nstreams g)) ++ " " ++ show_Z (Z.of_nat (version g)) ++ ")".
 
 Fixpoint locs_text (ths : list thread) (parked : list bool) (t : tid) : string :=
   match ths with
